@@ -174,19 +174,23 @@ theorem tr_msgTimeoutOnClose {s s' : ChainState} {env : Env} {p : PacketV1} {nsr
 /-! ### v1 send, async ack -/
 
 theorem tr_sendV1 {s s' : ChainState} {env : Env} {port chan : Id} {thRev thH tt seq : Nat} {data : Hex}
-    (h : sendPacketV1 s env port chan thRev thH tt data = .ok (s', seq)) : Tr s s' := by
+    (h : sendPacketV1 s env port chan thRev thH tt data = .ok (s', seq)) :
+    Tr s (s'.logAdd (.send1 port chan seq)) := by
   obtain ⟨ch, hch, hst, hseq, rfl⟩ := sendPacketV1_ok h
   exact {
-    log := .inl rfl
+    log := .inr ⟨.send1 port chan seq, rfl, hseq, by simp [ChainState.logAdd]⟩
     nextSend := by
       intro id n hn
-      simp only [FMap.get_set]
+      simp only [ChainState.logAdd, FMap.get_set]
       by_cases hid : id = chan
-      · subst hid; simp_all
-      · simp_all
+      · subst hid
+        rw [hseq] at hn; cases hn
+        right; left
+        exact ⟨by simp, _, rfl, by simp [Event.isSend]⟩
+      · left; simp [hid, hn]
     commitV1New := by
       intro p c q h0 h1
-      simp only [FMap.get_set] at h1 ⊢
+      simp only [ChainState.logAdd, FMap.get_set] at h1 ⊢
       split at h1
       · rename_i he; cases he; simp_all
       · contradiction }
@@ -214,13 +218,16 @@ theorem tr_msgSendPacketV2 {s s' : ChainState} {env : Env} {src : Id} {tt : Nat}
   subst hs
   unfold commitSendV2
   exact {
-    log := .inr ⟨.send2 src _ payloads.length, rfl, trivial⟩
+    log := .inr ⟨.send2 src _ payloads.length, rfl, hseq, by simp [ChainState.logAdd]⟩
     nextSend := by
       intro id n hn
       simp only [ChainState.logAdd, FMap.get_set]
       by_cases hid : id = src
-      · subst hid; simp_all
-      · simp_all
+      · subst hid
+        rw [hseq] at hn; cases hn
+        right; left
+        exact ⟨by simp, _, rfl, by simp [Event.isSend]⟩
+      · left; simp [hid, hn]
     commitV2New := by
       intro c q h0 h1
       simp only [ChainState.logAdd, FMap.get_set] at h1 ⊢
@@ -231,18 +238,46 @@ theorem tr_msgSendPacketV2 {s s' : ChainState} {env : Env} {src : Id} {tt : Nat}
 theorem tr_recv2 {s : ChainState} {env : Env} {p : PacketV2} {s1 : ChainState}
     (h1 : recvPacketV2 s env p = .ok s1) (n : Nat) (B : FMap String String)
     (A : FMap (Id × Nat) (List Hex)) (Y : FMap (Id × Nat) PacketV2)
-    (hack : A = s1.ackV2 ∨ ∃ a, s1.ackV2.get (p.dst, p.seq) = none ∧ A = s1.ackV2.set (p.dst, p.seq) a) :
+    (hack : (A = s1.ackV2 ∧ ∃ pk, Y = s1.asyncV2.set (p.dst, p.seq) pk ∧ (pk.dst, pk.seq) = (p.dst, p.seq)) ∨
+            (Y = s1.asyncV2 ∧ ∃ a, s1.ackV2.get (p.dst, p.seq) = none ∧ A = s1.ackV2.set (p.dst, p.seq) a)) :
     Tr s { s1 with log := s1.log ++ [.recv2 p.dst p.seq n], app := B, ackV2 := A, asyncV2 := Y } := by
   obtain ⟨hcp, hnone, rfl⟩ := recvPacketV2_ok h1
   exact {
     log := .inr ⟨.recv2 p.dst p.seq n, rfl, hnone, by simp⟩
     ackV2 := by
       intro k v hk
-      rcases hack with h | ⟨a, hn, h⟩
+      rcases hack with ⟨h, _⟩ | ⟨_, a, hn, h⟩
       · rw [h]; exact hk
       · simp only [h, FMap.get_set]; split
         · subst_vars; simp only at hn; rw [hn] at hk; cases hk
-        · exact hk }
+        · exact hk
+    ackV2New := by
+      intro k h0 h1
+      rcases hack with ⟨h, _⟩ | ⟨hy, a, hn, h⟩
+      · subst h; exact absurd h0 h1
+      · subst h; subst hy
+        simp only [FMap.get_set] at h1 ⊢
+        split at h1
+        · subst_vars; exact ⟨by simp, .inr (.inl hnone)⟩
+        · exact absurd h0 h1
+    asyncNew := by
+      intro k pk0 h0 h1
+      rcases hack with ⟨h, pk, hy, hpk⟩ | ⟨hy, _⟩
+      · subst h; subst hy
+        simp only [FMap.get_set] at h1 ⊢
+        split at h1
+        · subst_vars; cases h1; exact ⟨hpk, hnone, by simp, by simp⟩
+        · rw [h0] at h1; cases h1
+      · subst hy; rw [h0] at h1; cases h1
+    asyncOld := by
+      intro k pk hk
+      rcases hack with ⟨h, pk', hy, _⟩ | ⟨hy, _⟩
+      · subst hy
+        simp only [FMap.get_set]
+        split
+        · subst_vars; right; right; exact hnone
+        · left; exact hk
+      · subst hy; left; exact hk }
 
 theorem tr_msgRecvPacketV2 {s s' : ChainState} {env : Env} {p : PacketV2} {apps : List AppV2} {out : Out}
     (h : msgRecvPacketV2 s env p apps = (s', out)) : Tr s s' := by
@@ -253,21 +288,49 @@ theorem tr_msgRecvPacketV2 {s s' : ChainState} {env : Env} {p : PacketV2} {apps 
   all_goals first
     | -- synchronous acknowledgement
       (obtain ⟨_, _, hnone, _, rfl⟩ := writeAckV2_ok ‹writeAckV2 _ p _ = Except.ok _›
-       exact tr_recv2 hr _ _ _ _ (.inr ⟨_, hnone, rfl⟩))
+       exact tr_recv2 hr _ _ _ _ (.inr ⟨rfl, _, hnone, rfl⟩))
     | -- asynchronous
-      exact tr_recv2 hr _ _ _ _ (.inl rfl)
+      exact tr_recv2 hr _ _ _ _ (.inl ⟨rfl, _, rfl, rfl⟩)
 
 theorem tr_asyncWriteAckV2 {s s' : ChainState} {dst : Id} {seq : Nat} {acks : List Hex}
     (h : asyncWriteAckV2 s dst seq acks = .ok s') : Tr s s' := by
   obtain ⟨p, s1, hp, hw, rfl⟩ := asyncWriteAckV2_ok h
-  obtain ⟨_, _, hnone, _, rfl⟩ := writeAckV2_ok hw
+  obtain ⟨_, _, hnone, hrc, rfl⟩ := writeAckV2_ok hw
   exact {
     log := .inl rfl
     ackV2 := by
-      intro k v hk
+      intro k v hk'
       simp only [FMap.get_set]; split
-      · subst_vars; rw [hnone] at hk; cases hk
-      · exact hk }
+      · subst_vars; rw [hnone] at hk'; cases hk'
+      · exact hk'
+    ackV2New := by
+      intro k h0 h1
+      simp only [FMap.get_set, FMap.get_del] at h1 ⊢
+      split at h1
+      · subst_vars
+        refine ⟨hrc, ?_⟩
+        by_cases hd : (p.dst, p.seq) = (dst, seq)
+        · left; rw [if_pos hd]
+        · right; right; exact ⟨(dst, seq), p, hp, hd⟩
+      · exact absurd h0 h1
+    asyncNew := by
+      intro k pk h0 h1
+      simp only [FMap.get_del] at h1
+      split at h1
+      · cases h1
+      · rw [h0] at h1; cases h1
+    asyncOld := by
+      intro k pk hk'
+      simp only [FMap.get_set, FMap.get_del]
+      split
+      · subst_vars
+        rw [hp] at hk'; cases hk'
+        right; left
+        refine ⟨rfl, ?_⟩
+        by_cases hd : (p.dst, p.seq) = (dst, seq)
+        · left; rw [hd] at hnone; exact ⟨hd, hnone, by simp [hd]⟩
+        · right; exact hd
+      · left; exact hk' }
 
 theorem tr_terminal2 {s : ChainState} {src : Id} {q : Nat} (e : Event) (B : FMap String String)
     (he : (∃ a, e = .ack2 src q a) ∨ (∃ n, e = .timeout2 src q n))
@@ -305,7 +368,7 @@ theorem tr_chanNew (s : ChainState) (port : Id) (k : String) (B : FMap String St
                   nextRecv := s.nextRecv.set (port, fmtChan s.nextChanSeq) 1,
                   nextAck := s.nextAck.set (port, fmtChan s.nextChanSeq) 1 } := by
   exact {
-    log := .inr ⟨.hs k port (fmtChan s.nextChanSeq), rfl, trivial⟩
+    log := .inr ⟨.hs k port (fmtChan s.nextChanSeq), rfl, fun _ => ⟨rfl, rfl⟩⟩
     chanOld := by
       intro p c ch h
       by_cases hc : c = fmtChan s.nextChanSeq
@@ -339,7 +402,14 @@ theorem tr_chanNew (s : ChainState) (port : Id) (k : String) (B : FMap String St
       intro id n hn
       by_cases hc : id = fmtChan s.nextChanSeq
       · right; right; left; exact hc
-      · left; simp only [FMap.get_set]; rw [if_neg hc]; exact hn }
+      · left; simp only [FMap.get_set]; rw [if_neg hc]; exact hn
+    nextSendNew := by
+      intro id n h0 h1
+      simp only [FMap.get_set] at h1
+      split at h1
+      · subst_vars; cases h1
+        exact ⟨rfl, .inl rfl, .inl ⟨port, by simp⟩⟩
+      · rw [h0] at h1; cases h1 }
 
 theorem tr_msgChanOpenInit {s s' : ChainState} {env : Env} {port : Id} {o : Order} {hops : List Id} {cpPort : Id}
     {version : String} {app : AppV1} {out : Out}
@@ -364,11 +434,11 @@ theorem tr_chanUpdate (s : ChainState) (port chan : Id) (k : String) (B : FMap S
     (h1 : ch'.ordering = ch.ordering) (h2 : ch'.cpPort = ch.cpPort) (h3 : ch'.hops = ch.hops)
     (h4 : ChanTrans ch.state ch'.state)
     (h5 : (ch'.version ≠ ch.version ∨ ch'.cpChan ≠ ch.cpChan) → ch.state = .init ∧ ch'.state = .opened)
-    (hC : C = s.cpV2 ∨ ∃ v, C = s.cpV2.set chan v) :
+    (hC : C = s.cpV2 ∨ ∃ v, C = s.cpV2.set chan v) (hk : k ≠ "init" ∧ k ≠ "try") :
     Tr s { s with chan := s.chan.set (port, chan) ch', cpV2 := C, alias := A,
                   log := s.log ++ [.hs k port chan], app := B } := by
   exact {
-    log := .inr ⟨.hs k port chan, rfl, trivial⟩
+    log := .inr ⟨.hs k port chan, rfl, fun h => by rcases h with h | h <;> simp_all⟩
     chanOld := by
       intro p c ch0 h0
       right
@@ -418,7 +488,7 @@ theorem tr_msgChanOpenAck {s s' : ChainState} {env : Env} {port chan cpChan : Id
   have hst := ‹¬_ ≠ ChanState.init›
   simp only [ne_eq, Decidable.not_not] at hst
   exact tr_chanUpdate s port chan "ack" _ _ _ C A hch rfl rfl rfl (.inr (.inl ⟨hst, rfl⟩))
-    (fun _ => ⟨hst, rfl⟩) hC
+    (fun _ => ⟨hst, rfl⟩) hC (by decide)
 
 theorem tr_msgChanOpenConfirm {s s' : ChainState} {env : Env} {port chan : Id} {app : AppV1}
     {out : Out} (h : msgChanOpenConfirm s env port chan app = (s', out)) : Tr s s' := by
@@ -431,7 +501,7 @@ theorem tr_msgChanOpenConfirm {s s' : ChainState} {env : Env} {port chan : Id} {
   have hst := ‹¬_ ≠ ChanState.tryopen›
   simp only [ne_eq, Decidable.not_not] at hst
   exact tr_chanUpdate s port chan "confirm" _ _ _ C A hch rfl rfl rfl (.inr (.inr (.inl ⟨hst, rfl⟩)))
-    (fun h => by simp at h) (by simpa using hC)
+    (fun h => by simp at h) (by simpa using hC) (by decide)
 
 theorem tr_msgChanCloseInit {s s' : ChainState} {env : Env} {port chan : Id} {app : AppV1}
     {out : Out} (h : msgChanCloseInit s env port chan app = (s', out)) : Tr s s' := by
@@ -441,7 +511,7 @@ theorem tr_msgChanCloseInit {s s' : ChainState} {env : Env} {port chan : Id} {ap
   have hch := ‹_ = some _›
   have hst := ‹¬ _ = ChanState.closed›
   exact tr_chanUpdate s port chan "closeInit" _ _ _ s.cpV2 s.alias hch rfl rfl rfl (.inr (.inr (.inr ⟨hst, rfl⟩)))
-    (fun h => by simp at h) (.inl rfl)
+    (fun h => by simp at h) (.inl rfl) (by decide)
 
 theorem tr_msgChanCloseConfirm {s s' : ChainState} {env : Env} {port chan : Id} {app : AppV1}
     {out : Out} (h : msgChanCloseConfirm s env port chan app = (s', out)) : Tr s s' := by
@@ -451,7 +521,7 @@ theorem tr_msgChanCloseConfirm {s s' : ChainState} {env : Env} {port chan : Id} 
   have hch := ‹_ = some _›
   have hst := ‹¬ _ = ChanState.closed›
   exact tr_chanUpdate s port chan "closeConfirm" _ _ _ s.cpV2 s.alias hch rfl rfl rfl (.inr (.inr (.inr ⟨hst, rfl⟩)))
-    (fun h => by simp at h) (.inl rfl)
+    (fun h => by simp at h) (.inl rfl) (by decide)
 
 /-! ### connections, clients, authorisation -/
 
@@ -462,6 +532,27 @@ theorem addConnectionToClient_ok {s s' : ChainState} {client connId : Id}
   simp only [Except.ok.injEq] at h
   exact ⟨_, h.symm⟩
 
+/-- a new connection end is stored under the generated identifier -/
+theorem tr_connNew (s : ChainState) (X : FMap Id (List Id)) (e : ConnEnd)
+    (hst : e.state = .init ∨ e.state = .tryopen) (hcl : e.client ≠ localhostClient)
+    (hv : e.state = .tryopen → ∃ v, e.versions = [v]) :
+    Tr s { s with nextConnSeq := s.nextConnSeq + 1, clientConns := X,
+                  conn := s.conn.set (fmtConn s.nextConnSeq) e,
+                  log := s.log ++ [.genConn (fmtConn s.nextConnSeq)] } := by
+  exact {
+    log := .inr ⟨.genConn (fmtConn s.nextConnSeq), rfl, rfl, rfl⟩
+    connOld := by
+      intro c e0 h0
+      by_cases hc : c = fmtConn s.nextConnSeq
+      · left; exact hc
+      · right; exact ⟨e0, by simp [FMap.get_set, hc, h0], .inl rfl⟩
+    connNew := by
+      intro c e' h0 h1
+      simp only [FMap.get_set] at h1
+      split at h1
+      · subst_vars; cases h1; exact ⟨rfl, rfl, hst, hcl, hv⟩
+      · rw [h0] at h1; cases h1 }
+
 theorem tr_msgConnOpenInit {s s' : ChainState} {env : Env} {client cpClient : Id} {cpPrefix : Hex}
     {version : Option Version} {delay : Nat} {out : Out}
     (h : msgConnOpenInit s env client cpClient cpPrefix version delay = (s', out)) : Tr s s' := by
@@ -471,7 +562,7 @@ theorem tr_msgConnOpenInit {s s' : ChainState} {env : Env} {client cpClient : Id
     msubst h
     obtain ⟨X, hX⟩ := addConnectionToClient_ok ‹addConnectionToClient _ _ _ = Except.ok _›
     subst hX
-    exact { log := .inl rfl }
+    exact tr_connNew s X _ (.inl rfl) ‹_› (fun h => by simp at h)
 
 theorem tr_msgConnOpenTry {s s' : ChainState} {env : Env} {client cpClient cpConn : Id} {cpPrefix : Hex}
     {versions : List Version} {delay : Nat} {out : Out}
@@ -482,21 +573,46 @@ theorem tr_msgConnOpenTry {s s' : ChainState} {env : Env} {client cpClient cpCon
     msubst h
     obtain ⟨X, hX⟩ := addConnectionToClient_ok ‹addConnectionToClient _ _ _ = Except.ok _›
     subst hX
-    exact { log := .inl rfl }
+    exact tr_connNew s X _ (.inr rfl) ‹_› (fun _ => ⟨_, rfl⟩)
+
+/-- an existing connection end is rewritten -/
+theorem tr_connUpdate (s : ChainState) (c : Id) (e e' : ConnEnd) (hc : s.conn.get c = some e) (hs : ConnStep e e') :
+    Tr s { s with conn := s.conn.set c e' } := by
+  exact {
+    log := .inl rfl
+    connOld := by
+      intro c0 e0 h0
+      right
+      simp only [FMap.get_set]
+      split
+      · subst_vars; rw [hc] at h0; cases h0; exact ⟨e', rfl, hs⟩
+      · exact ⟨e0, h0, .inl rfl⟩
+    connNew := by
+      intro c0 e0 h0 h1
+      simp only [FMap.get_set] at h1
+      split at h1
+      · subst_vars; rw [hc] at h0; cases h0
+      · rw [h0] at h1; cases h1 }
 
 theorem tr_msgConnOpenAck {s s' : ChainState} {env : Env} {connId cpConn : Id} {version : Version} {out : Out}
     (h : msgConnOpenAck s env connId cpConn version = (s', out)) : Tr s s' := by
   unfold msgConnOpenAck at h
   msplit h
   msubst h
-  exact { log := .inl rfl }
+  have hst := ‹¬_ ≠ ConnState.init›
+  simp only [ne_eq, Decidable.not_not] at hst
+  have hv := ‹¬(!isSupportedVersion _ version) = true›
+  simp only [Bool.not_eq_true', Bool.not_eq_false] at hv
+  exact tr_connUpdate s connId _ _ ‹_› (.inr (.inl ⟨hst, rfl, rfl, rfl, rfl, rfl, version, rfl, by simpa using hv⟩))
 
 theorem tr_msgConnOpenConfirm {s s' : ChainState} {env : Env} {connId : Id} {out : Out}
     (h : msgConnOpenConfirm s env connId = (s', out)) : Tr s s' := by
   unfold msgConnOpenConfirm at h
   msplit h
   msubst h
-  exact { log := .inl rfl }
+  have hst := ‹¬_ ≠ ConnState.tryopen›
+  simp only [ne_eq, Decidable.not_not] at hst
+  exact tr_connUpdate s connId _ _ ‹_› (.inr (.inr ⟨hst, rfl⟩))
 
 theorem route_ok {s : ChainState} {cid : Id} (h : route s cid = .ok ()) : IsClientId cid := by
   unfold route at h
@@ -517,16 +633,16 @@ theorem tr_msgCreateClient {s s' : ChainState} {env : Env} {ctype : String} {out
   have hr : route _ (fmtClient ctype s.nextClientSeq) = Except.ok _ := ‹_›
   have hcid : IsClientId (fmtClient ctype s.nextClientSeq) := route_ok hr
   exact {
-    log := .inl rfl
+    log := .inr ⟨.genClient (fmtClient ctype s.nextClientSeq), rfl, ⟨ctype, rfl⟩, rfl⟩
     clientStateNew := by
       intro id h0 h1
-      simp only [FMap.get_set] at h1
+      simp only [ChainState.logAdd, FMap.get_set] at h1
       split at h1
       · subst_vars; exact ⟨hcid, ⟨ctype, rfl⟩, rfl⟩
       · exact absurd h0 h1
     creatorNew := by
       intro id h0 h1
-      simp only [FMap.get_set] at h1 ⊢
+      simp only [ChainState.logAdd, FMap.get_set] at h1 ⊢
       split at h1
       · subst_vars; simp
       · exact absurd h0 h1 }
@@ -555,6 +671,13 @@ theorem tr_msgRegisterCounterparty {s s' : ChainState} {env : Env} {cid cpClient
       split
       · subst_vars; right; right; right; exact ⟨hcp, hcr⟩
       · left; exact hn
+    nextSendNew := by
+      intro id n h0 h1
+      simp only [FMap.get_set] at h1
+      split at h1
+      · subst_vars; cases h1
+        exact ⟨rfl, .inr ⟨hcp, hcr⟩, .inr (by simp)⟩
+      · rw [h0] at h1; cases h1
     cpV2 := by
       intro id hid
       simp only [FMap.get_set]; split <;> simp_all
